@@ -429,7 +429,7 @@ fn main() {
     let single = PrefixSingle {
         name: "prefix-valid".into(),
         alpha: a5.clone(),
-        max_len: run.pick(5, 7),
+        max_len: run.pick(5, 8),
         plain: false,
         fns: valid_fns(),
         tys: vec![ty_v1::<f64, f64>(), ty_v1::<Option<f64>, Option<f64>>(), ty_v1::<Option<i32>, f64>()],
@@ -437,7 +437,7 @@ fn main() {
     let plain = PrefixSingle {
         name: "prefix-plain".into(),
         alpha: a5.iter().cloned().filter(|x| x.is_some()).collect(),
-        max_len: run.pick(6, 8),
+        max_len: run.pick(6, 9),
         plain: true,
         fns: plain_fns(),
         tys: vec![ty_p1::<f64, f64>(), ty_p1::<i32, f64>()],
